@@ -218,8 +218,12 @@ fn native_free(vm: &mut VM, args: &[Value]) -> Result<Value, RuntimeError> {
         return Ok(Value::null());
     }
     let h = get_handle(vm, args[0], "free")?;
-    match vm.take_resource(h) {
-        Some(Resource::ByteBuffer(_)) => Ok(Value::null()),
+    // look before taking: a resource of another kind (file, timer, socket) must survive the refusal
+    match vm.get_resource(h) {
+        Some(Resource::ByteBuffer(_)) => {
+            vm.take_resource(h);
+            Ok(Value::null())
+        }
         Some(_) => Err(err(vm, "free", "not a byte buffer".into())),
         None => Err(err(vm, "free", "invalid handle".into())),
     }
